@@ -13,6 +13,13 @@ package main
 // values stay with their holders: each holder keeps a by-value copy of what its
 // field held (detach), as out = append(out, tmp) or a []byte->[]byte Set would,
 // and the field itself is handed to the real code again, non-fresh.
+//
+// CopyTo of the BUILT-IN inspectors (M/MI: StringAnyMapInspector on a nested
+// map[string]any, L/LI: StringsInspector on []string / [][]byte): the source is
+// built from the case text, every source text AND every copied text is handed to
+// a holder (source, copy, source, copy, ... in the order of the case text, which
+// is independent of Go's map iteration order); X puts one more value of the
+// client, outside the buffer, under observation.
 
 import (
 	"encoding/hex"
@@ -70,6 +77,132 @@ func unhex(s string) []byte {
 	return b
 }
 
+// ownBytes: a []byte of the client, capacity = length, memory of its own.
+func ownBytes(d []byte) []byte {
+	v := make([]byte, len(d))
+	copy(v, d)
+	return v
+}
+
+// ownString: a string of the client in memory of its own (string(d) of a one-byte d points into a table the
+// runtime shares between all one-byte strings, which would make two sources "overlap").
+func ownString(d []byte) string {
+	if len(d) == 0 {
+		return ""
+	}
+	v := ownBytes(d)
+	return unsafe.String(&v[0], len(v))
+}
+
+// c07Map builds the map[string]any a token list describes (keys are positional: k<index of the token>)
+// and returns it with the source text values in token order.
+type c07Tok struct {
+	kind byte // s S b B i o c
+	data []byte
+	ind  int
+}
+
+func c07ParseToks(text string) []c07Tok {
+	var ts []c07Tok
+	if text == "" {
+		return ts
+	}
+	for _, t := range strings.Split(text, ",") {
+		switch t[0] {
+		case 's', 'S', 'b', 'B':
+			ts = append(ts, c07Tok{kind: t[0], data: unhex(t[1:])})
+		case 'i', 'c':
+			ts = append(ts, c07Tok{kind: t[0]})
+		case 'o':
+			n, _ := strconv.Atoi(t[1:])
+			ts = append(ts, c07Tok{kind: 'o', ind: n})
+		default:
+			panic("bad token " + t)
+		}
+	}
+	return ts
+}
+
+// build consumes tokens from *pos up to the matching close (or the end) and fills m; sources are appended to *src.
+func c07Build(ts []c07Tok, pos *int, m map[string]any, src *[]*handout) {
+	for *pos < len(ts) {
+		i := *pos
+		t := ts[i]
+		*pos++
+		key := "k" + strconv.Itoa(i)
+		switch t.kind {
+		case 'c':
+			return
+		case 'i':
+			m[key] = 1000 + i
+		case 's':
+			v := ownString(t.data)
+			m[key] = v
+			*src = append(*src, &handout{isStr: true, s: &v, live: true})
+		case 'S':
+			v := ownString(t.data)
+			m[key] = &v
+			*src = append(*src, &handout{isStr: true, s: &v, live: true})
+		case 'b':
+			v := ownBytes(t.data)
+			m[key] = v
+			*src = append(*src, &handout{b: &v, live: true})
+		case 'B':
+			v := ownBytes(t.data)
+			m[key] = &v
+			*src = append(*src, &handout{b: &v, live: true})
+		case 'o':
+			sub := map[string]any{}
+			c07Build(ts, pos, sub, src)
+			switch t.ind {
+			case 0:
+				m[key] = sub
+			case 1:
+				m[key] = &sub
+			default:
+				p := &sub
+				m[key] = &p
+			}
+		}
+	}
+}
+
+// collect walks the copy along the same tokens and appends the copied text values (token order) to *out.
+func c07Collect(ts []c07Tok, pos *int, m map[string]any, out *[]*handout) {
+	for *pos < len(ts) {
+		i := *pos
+		t := ts[i]
+		*pos++
+		key := "k" + strconv.Itoa(i)
+		switch t.kind {
+		case 'c':
+			return
+		case 'i':
+			if m[key] != any(1000+i) {
+				panic("value changed")
+			}
+		case 's', 'S':
+			// a string and a *string source both arrive as a string
+			v := m[key].(string)
+			*out = append(*out, &handout{isStr: true, s: &v, live: true})
+		case 'b', 'B':
+			v := m[key].([]byte)
+			*out = append(*out, &handout{b: &v, live: true})
+		case 'o':
+			var sub map[string]any
+			switch t.ind {
+			case 0:
+				sub = m[key].(map[string]any)
+			case 1:
+				sub = *(m[key].(*map[string]any))
+			default:
+				sub = **(m[key].(**map[string]any))
+			}
+			c07Collect(ts, pos, sub, out)
+		}
+	}
+}
+
 func runC07(input string) string {
 	parts := strings.Split(input, ";")
 	size, _ := strconv.Atoi(strings.TrimPrefix(parts[0], "cap="))
@@ -83,6 +216,12 @@ func runC07(input string) string {
 		prevObj  *testobj.TestObject
 		prevHist *testobj.TestHistory
 		prevObj1 *testobj.TestObject1
+	)
+	// the destinations of the previous CopyTo of the built-in inspectors
+	var (
+		prevMap *map[string]any
+		prevSS  *[]string
+		prevPP  *[][]byte
 	)
 	release := func(owner any) {
 		for _, h := range hs {
@@ -231,6 +370,93 @@ func runC07(input string) string {
 					}
 				}
 				buf.ReleaseBytes(bb)
+			}
+		case "X":
+			// a value of the client outside the buffer comes under observation
+			if f[1][0] == 's' {
+				addS(ownString(unhex(f[1][1:])))
+			} else {
+				addB(ownBytes(unhex(f[1][1:])))
+			}
+		case "M", "MI":
+			// StringAnyMapInspector.CopyTo into a fresh map (M) or into the map that received the previous one (MI)
+			ts := c07ParseToks(f[1])
+			src := map[string]any{}
+			var srcs, cps []*handout
+			pos := 0
+			for pos < len(ts) {
+				c07Build(ts, &pos, src, &srcs) // a stray close on the top level is skipped
+			}
+			dst := prevMap
+			if f[0] == "M" || dst == nil {
+				m := map[string]any{}
+				dst = &m
+			}
+			if err := (inspector.StringAnyMapInspector{}).CopyTo(src, dst, buf); err != nil {
+				panic(err)
+			}
+			prevMap = dst
+			pos = 0
+			for pos < len(ts) {
+				c07Collect(ts, &pos, *dst, &cps)
+			}
+			for i := range srcs {
+				hs = append(hs, srcs[i], cps[i])
+			}
+		case "L", "LI":
+			// StringsInspector.CopyTo: f[1] = source kind + destination kind (s: []string, b: [][]byte), appended to the destination
+			var data [][]byte
+			if f[2] != "" {
+				for _, e := range strings.Split(f[2], ",") {
+					data = append(data, unhex(e[1:]))
+				}
+			}
+			var srcs []*handout
+			var src any
+			if f[1][0] == 's' {
+				ss := make([]string, len(data))
+				for i := range data {
+					ss[i] = ownString(data[i])
+					srcs = append(srcs, &handout{isStr: true, s: &ss[i], live: true})
+				}
+				src = ss
+			} else {
+				pp := make([][]byte, len(data))
+				for i := range data {
+					pp[i] = ownBytes(data[i])
+					srcs = append(srcs, &handout{b: &pp[i], live: true})
+				}
+				src = &pp
+			}
+			reuse := f[0] == "LI"
+			if f[1][1] == 's' {
+				dst := prevSS
+				if !reuse || dst == nil {
+					dst = &[]string{}
+				}
+				if err := (inspector.StringsInspector{}).CopyTo(src, dst, buf); err != nil {
+					panic(err)
+				}
+				prevSS = dst
+				tail := (*dst)[len(*dst)-len(data):]
+				for i := range data {
+					v := tail[i]
+					hs = append(hs, srcs[i], &handout{isStr: true, s: &v, live: true})
+				}
+			} else {
+				dst := prevPP
+				if !reuse || dst == nil {
+					dst = &[][]byte{}
+				}
+				if err := (inspector.StringsInspector{}).CopyTo(src, dst, buf); err != nil {
+					panic(err)
+				}
+				prevPP = dst
+				tail := (*dst)[len(*dst)-len(data):]
+				for i := range data {
+					v := tail[i]
+					hs = append(hs, srcs[i], &handout{b: &v, live: true})
+				}
 			}
 		case "R":
 			buf.Reset()
